@@ -465,6 +465,10 @@ func (o *C19) Check(x *h.Exec, ev *h.Event) {
 			rj := twin.Exec(h.Query{Kind: kind, Path: 0, Order: ord})
 			x.Cov.Evaluations++
 			x.Cov.ByKind[kind]++
+			if rj.Panic != nil && rn.Panic == nil {
+				x.Report("json-panics", kind, rj.Panic.Func, fmt.Sprintf("%s of path %s: the JSON rendering makes the library panic (%s), native syntax does not\n%s", kind, p.Path.Path, rj.Panic.Msg, short(rj.Panic.Stack, 1500)), &qn)
+				return
+			}
 			if rn.Panic != nil || rj.Panic != nil || rn.Err != nil || rj.Err != nil {
 				if (rn.Err == nil) != (rj.Err == nil) {
 					x.Report("error-differs", kind, "", fmt.Sprintf("%s: native err=%v, JSON err=%v", kind, rn.Err, rj.Err), &qn)
